@@ -3,3 +3,5 @@ module verif.local/harness
 go 1.23.4
 
 require pgregory.net/rapid v1.3.0
+
+require github.com/miekg/dns v1.1.62
